@@ -105,6 +105,16 @@ func featgenCases() []packCase {
 	add("rest:for-of", "() => { var out = []; for (var {a, ...r} of [{a: 1, b: 2}, {a: 3, c: 4}]) out.push([a, r]); return out; }", false)
 	add("rest:for-of-assign", "() => { var out = [], a, r; for ({a, ...r} of [{a: 1, b: 2}]) out.push([a, r]); return out; }", false)
 	add("rest:catch", "() => { try { throw {a: 1, b: 2, c: 3}; } catch ({a, ...r}) { return [a, r]; } }", false)
+	// object rest nested inside array elements / properties that have default values
+	add("rest:in-array-default", "() => { var [{a, ...r} = {}] = [{a: 1, b: 2}]; return [a, r]; }", false)
+	add("rest:in-array-default-missing", "() => { var [{a, ...r} = {z: "+P("9")+"}] = []; return [a, r]; }", false)
+	add("rest:in-array-default-param", "() => (function ([{b, ...r} = {}], [c, {...t} = "+P("{q: 1}")+"] = []) { return [b, r, c, t]; })([{b: 1, c: 2}])", false)
+	add("rest:in-array-default-assign", "() => { var r; [{...r} = {}] = [{x: 1}]; return r; }", false)
+	add("rest:in-array-default-for-of", "() => { var out = []; for (const [{...r} = {d: 0}] of [[{q: 1}], [void 0]]) out.push(r); return out; }", false)
+	add("rest:in-array-default-catch", "() => { try { throw [{m: 1, n: 2}]; } catch ([{m, ...r} = {}]) { return [m, r]; } }", false)
+	add("rest:in-prop-array-default", "() => { var {p: [{...r} = {}] = []} = {p: [{z: 1}]}; return r; }", false)
+	add("rest:in-nested-array-default", "() => { var [[{y, ...r} = {}] = []] = [[{y: 1, w: 2}]]; return [y, r]; }", false)
+	add("rest:in-array-rest-element", "() => { var [a, ...[{b, ...r}]] = [1, {b: 2, c: 3}]; return [a, b, r]; }", false)
 	add("rest:getter-once", "() => { var {b, ...r} = mk("+p()+", 7); return [b, r.a]; }", false)
 	add("rest:null-throws", "() => { var {...r} = null; return r; }", false)
 	add("rest:primitive", "() => { var {length, ...r} = \"ab\"; return [length, r]; }", false)
